@@ -84,7 +84,7 @@ F_Leaves ==
   CASE Family = "arith"  -> Ints({0, 1, 2, 7}) \cup {L(NFloat("0.5", 1, 1), "float64"), L(NFloat("2.0", 2, 0), "float64"),
                               Mem("I"), Mem("J"), Mem("F"), Mem("I64"), Mem("U8"), Mem("F32"), Mem("Any")}
     [] Family = "logic"  -> Ints({1, 2}) \cup {L(NBool(TRUE), "bool"), L(NBool(FALSE), "bool"), L(NNil, "nil"),
-                              Mem("B"), Mem("C"), Mem("I"), Mem("Any"), Mem("S"), Mem("P")}
+                              Mem("B"), Mem("C"), Mem("I"), Mem("Any"), Mem("S"), Mem("P"), Mem("I64"), Mem("G")}
     [] Family = "string" -> Strs({"a", "abc", "^ab", "c$", "("}) \cup {Mem("S"), Mem("T"), Mem("Any")} \cup Ints({0, 1, 5})
     [] Family = "coll"   -> Ints({0, 1, 2, 4}) \cup Strs({"a", "z", "N"}) \cup {Neg1, L(NNil, "nil"),
                               Mem("Xs"), Mem("Ss"), Mem("Anys"), Mem("M"), Mem("MA"), Mem("S"), Mem("I"), Mem("O"), Mem("P"), Mem("Any")}
@@ -226,13 +226,33 @@ RunOf(t, asg, b) ==
       lim == IF b = 0 THEN DefaultBudget ELSE b
       exp == Outcome(t, rho, lim, {})
       dvs == {d \in F_Devs : Outcome(t, rho, lim, {d}) # exp}
-  IN [env |-> asg, budget |-> lim, exp |-> exp, dev |-> [d \in dvs |-> Outcome(t, rho, lim, {d})]]
+      \* C03: the value under the result directives AsInt64 / AsFloat64 (the Go conversion)
+      cast(k) == IF exp.ok /\ IsNum(exp.v) THEN Conv(exp.v, k) ELSE Nil
+  IN [env |-> asg, budget |-> lim, exp |-> exp, dev |-> [d \in dvs |-> Outcome(t, rho, lim, {d})],
+      i64 |-> cast("int64"), f64 |-> cast("float64")]
 
 Runs(t) ==
   LET rs == {RunOf(t, asg, b) : asg \in Assignments(Mentions(t)), b \in F_Budgets}
   IN {r \in rs : r.exp.ok \/ r.exp.c # "outside"}
 
-Case == [src |-> Src(Tree), ty |-> TreeTy, n |-> n, cdz |-> HasConstDivZero(Tree), cbp |-> HasConstBadPattern(Tree), runs |-> Runs(Tree)]
+(* constructs at which the pinned checker's static type is known to differ from *)
+(* what is built at run time (catalogued deviations, C03): named so that a       *)
+(* failing execution can be attributed to the finding it belongs to              *)
+RECURSIVE HasCondNil(_), HasMapFilter(_), HasLitArray(_)
+HasCondNil(t) == (t.k = "cond" /\ (t.a.k = "nil" \/ t.b.k = "nil")) \/ \E i \in 1..Len(Kids(t)) : HasCondNil(Kids(t)[i])
+HasMapFilter(t) == (t.k = "bi" /\ t.name \in {"map", "filter"}) \/ \E i \in 1..Len(Kids(t)) : HasMapFilter(Kids(t)[i])
+HasLitArray(t) == t.k = "arr" \/ (t.k = "bin" /\ t.op = "..") \/ \E i \in 1..Len(Kids(t)) : HasLitArray(Kids(t)[i])
+RECURSIVE HasNilSafe(_)
+HasNilSafe(t) == (t.k \in {"prop", "meth"} /\ t.ns) \/ \E i \in 1..Len(Kids(t)) : HasNilSafe(Kids(t)[i])
+(* ("nil-safe-step": a nil-safe step yields nil on a nil receiver by definition, so *)
+(* nil inhabits the static type of such an expression: not a deviation)            *)
+CaseTags(t) ==
+  (IF HasCondNil(t) THEN {"cond-nil-branch"} ELSE {})
+  \cup (IF HasNilSafe(t) THEN {"nil-safe-step"} ELSE {})
+  \cup (IF HasMapFilter(t) THEN {"map-filter-result"} ELSE {})
+  \cup (IF HasLitArray(t) THEN {"literal-array"} ELSE {})
+
+Case == [src |-> Src(Tree), ty |-> TreeTy, n |-> n, typed |-> FullyTyped(Tree, ""), tags |-> CaseTags(Tree), cdz |-> HasConstDivZero(Tree), cbp |-> HasConstBadPattern(Tree), runs |-> Runs(Tree)]
 
 (* C18: the defining identities of the collection builtins, of membership in *)
 (* an integer range and of slicing.  A complete tree of one of the root      *)
